@@ -16,7 +16,13 @@ def coding_tx(S, n, chunk=False):
     cds_s, cds_e, c0, c1 = cds_in_exons(S, starts, ends)
     zero = S.enum_const(FRAME, "ZERO")
     cp = None
-    if chunk:
+    if chunk == "cuts":
+        # a chunk window that may cut the transcript anywhere (at least one exon base on it): chromosome-level
+        # conversions may not notice the chunk at all
+        from .c04_liftover import chunk_parent
+        cp, cs, ce = chunk_parent(S)
+        S.assume(Or(*[Max(starts[k], cs) < Min(ends[k], ce) for k in range(n)]))
+    elif chunk:
         from .c04_liftover import chunk_parent
         cp, cs, ce = chunk_parent(S)
         S.assume(And(cs <= starts[0], ends[-1] <= ce))  # the chunk contains the whole transcript
@@ -90,6 +96,91 @@ class PosCommute(Case):
         return d
 
 
+def chrom_pos(i, bs, be, t):
+    """chromosome position of relative position t of the location with blocks (bs, be), 5'->3' (strand of i)."""
+    n = len(bs)
+    order = list(range(n)) if i.plus else list(range(n - 1, -1, -1))
+    expr = -1
+    pre = 0
+    parts = []
+    for k in order:
+        ln = be[k] - bs[k]
+        val = (bs[k] + (t - pre)) if i.plus else (be[k] - 1 - (t - pre))
+        parts.append((And(pre <= t, t < pre + ln), val))
+        pre = pre + ln
+    for cond, val in reversed(parts):
+        expr = If(cond, val, expr)
+    return expr
+
+
+def total_len(bs, be):
+    return sum((e - s for s, e in zip(bs, be)), 0)
+
+
+class IntervalConversions(Case):
+    """interval forms of the chromosome <-> transcript / CDS conversions = the point-wise maps, base by base, also when
+    the transcript was built on a sequence chunk that cuts it (chromosome-level answers do not depend on the chunk)."""
+    props = ("C06", "C07")
+    func = "gene.interval.AbstractFeatureInterval.feature_interval_to_sequence"
+
+    def __init__(self, n, chunk):
+        self.n, self.chunk = n, chunk
+        self.shard_depth = 4
+        self.name = (f"TranscriptInterval interval conversions = point-wise maps[{n} exons"
+                     + (", chunk cutting the transcript" if chunk == "cuts" else "") + "]")
+        self.call = ("(tx.transcript_interval_to_sequence(a, b, Strand.PLUS), "
+                     "tx.sequence_interval_to_transcript(x, y, Strand.PLUS), "
+                     "tx.cds_interval_to_sequence(ca, cb, Strand.PLUS), tx.chromosome_location)")
+        self.ensures = {
+            "transcript-interval-to-sequence-is-the-point-wise-image": lambda i, r: Iff(
+                covers_pos(r[0], i.q), And(in_blocks(i.starts, i.ends, i.q),
+                                           i.a <= rel_pos(i, i.starts, i.ends, i.q),
+                                           rel_pos(i, i.starts, i.ends, i.q) < i.b)),
+            "sequence-interval-to-transcript-is-the-point-wise-preimage": lambda i, r: Iff(
+                covers_pos(r[1], i.t), And(0 <= i.t, i.t < total_len(i.starts, i.ends),
+                                           i.x <= chrom_pos(i, i.starts, i.ends, i.t),
+                                           chrom_pos(i, i.starts, i.ends, i.t) < i.y)),
+            "cds-interval-to-sequence-is-the-point-wise-image": lambda i, r: Iff(
+                covers_pos(r[2], i.q), And(in_blocks(i.cds_s, i.cds_e, i.q),
+                                           i.ca <= rel_pos(i, i.cds_s, i.cds_e, i.q),
+                                           rel_pos(i, i.cds_s, i.cds_e, i.q) < i.cb)),
+            "chromosome-location-is-the-exon-list": lambda i, r: Iff(covers_pos(r[3], i.q),
+                                                                      in_blocks(i.starts, i.ends, i.q)),
+        }
+
+    def inputs(self, S):
+        i = coding_tx(S, self.n, self.chunk)
+        i.a, i.b, i.x, i.y, i.ca, i.cb = S.int("a"), S.int("b"), S.int("x"), S.int("y"), S.int("ca"), S.int("cb")
+        i.q, i.t = S.int("q"), S.int("t")
+        S.assume(And(0 <= i.a, i.a < i.b, i.b <= total_len(i.starts, i.ends)))
+        S.assume(And(0 <= i.ca, i.ca < i.cb, i.cb <= total_len(i.cds_s, i.cds_e)))
+        S.assume(And(0 <= i.x, i.x < i.y, Or(*[Max(i.x, s) < Min(i.y, e) for s, e in zip(i.starts, i.ends)])))
+        i.Strand = S.cls(STRAND)
+        return i
+
+    def samples(self, rng):
+        d = sample_tx(rng, self.n)
+        L = sum(e - s for s, e in zip(d["tx_starts"], d["tx_ends"]))
+        a = rng.randint(0, L - 1)
+        d.update(a=a, b=rng.randint(a + 1, L))
+        cs_ = [d["cds_c0"]] + d["tx_starts"][1:]
+        ce_ = d["tx_ends"][:-1] + [d["cds_c1"]]
+        CL = sum(e - s for s, e in zip(cs_, ce_))
+        ca = rng.randint(0, CL - 1)
+        d.update(ca=ca, cb=rng.randint(ca + 1, CL))
+        x = rng.randint(max(0, d["tx_starts"][0] - 2), d["tx_ends"][-1] - 1)
+        d.update(x=x, y=rng.randint(x + 1, d["tx_ends"][-1] + 2), q=rng.randint(0, d["tx_ends"][-1] + 1), t=rng.randint(0, L))
+        if self.chunk:
+            cs = rng.randint(0, d["tx_ends"][-1] - 1)
+            ce = rng.randint(cs + 1, d["tx_ends"][-1] + 3)
+            d.update(chunk_start=cs, chunk_end=ce, chunk_seq="".join(rng.choice("ACGT") for _ in range(ce - cs)))
+        return d
+
+    def observe(self, r):
+        from .c02_single import obs_loc
+        return [obs_loc(x)[:3] for x in r]
+
+
 class TxOutsideCds(Case):
     """positions of the transcript outside the CDS: transcript conversions defined, CDS conversions refused."""
     props = ("C06",)
@@ -160,6 +251,51 @@ class UtrPartition(Case):
         return [obs_loc(r[0])[:2], obs_loc(r[1])[:2]]
 
 
+class UtrFrameshift(Case):
+    """UTRs of a transcript whose CDS carries an internal frameshift INSIDE an exon (two CDS blocks that overlap by one
+    base: -1 frameshift, or skip one exonic base: +1): the CDS is then not one gap-free run of the transcript, and the
+    UTRs are still exactly the exon parts upstream of the CDS start / downstream of the CDS end."""
+    props = ("C06",)
+    func = TRANSCRIPT + ".get_3p_interval"
+
+    def __init__(self, delta):
+        self.delta = delta
+        self.name = f"TranscriptInterval UTRs with an internal {'+1' if delta > 0 else '-1'} frameshift in the CDS[1 exon]"
+        self.call = "(tx.get_5p_interval(), tx.get_3p_interval())"
+        up = lambda i: (i.p < i.c0) if i.plus else (i.p >= i.c1)  # noqa
+        down = lambda i: (i.p >= i.c1) if i.plus else (i.p < i.c0)  # noqa
+        self.ensures = {
+            "5p-is-exon-part-upstream-of-cds": lambda i, r: Iff(covers_pos(r[0], i.p),
+                                                                And(in_blocks(i.starts, i.ends, i.p), up(i))),
+            "3p-is-exon-part-downstream-of-cds": lambda i, r: Iff(covers_pos(r[1], i.p),
+                                                                  And(in_blocks(i.starts, i.ends, i.p), down(i))),
+        }
+
+    def inputs(self, S):
+        starts, ends = block_lists(S, "tx", 1)
+        strand = strand_of(S, "strand")
+        c0, m, c1 = S.int("cds_c0"), S.int("cds_m"), S.int("cds_c1")
+        m2 = m + self.delta
+        S.assume(And(starts[0] <= c0, c0 < m, c0 < m2, m2 < c1, m < c1, c1 <= ends[0]))
+        zero = S.enum_const(FRAME, "ZERO")
+        tx = S.new(TRANSCRIPT, starts, ends, strand, cds_starts=[c0, m2], cds_ends=[m, c1], cds_frames=[zero, zero])
+        plus = (strand.members[strand.idx][0] if hasattr(strand, "members") else strand.name) == "PLUS"
+        return NS(tx=tx, starts=starts, ends=ends, c0=c0, c1=c1, plus=plus, p=S.int("p"))
+
+    def samples(self, rng):
+        s = rng.randint(0, 5)
+        c0 = s + rng.randint(0, 3)
+        m = c0 + rng.randint(2, 5)
+        c1 = m + rng.randint(2, 5)
+        e = c1 + rng.randint(0, 3)
+        return dict(tx_starts=[s], tx_ends=[e], strand=rng.choice(["PLUS", "MINUS"]), cds_c0=c0, cds_m=m, cds_c1=c1,
+                    p=rng.randint(s - 1, e + 1))
+
+    def observe(self, r):
+        from .c02_single import obs_loc
+        return [obs_loc(r[0])[:2], obs_loc(r[1])[:2]]
+
+
 class Introns(Case):
     props = ("C06",)
     func = "gene.interval.AbstractFeatureInterval.chromosome_gaps_location"
@@ -190,4 +326,5 @@ class Introns(Case):
 
 
 CASES = [PosCommute(1), PosCommute(2), PosCommute(3), PosCommute(1, True), PosCommute(2, True), TxOutsideCds(2), UtrPartition(1), UtrPartition(2),
-         UtrPartition(3), Introns(2), Introns(3)]
+         UtrPartition(3), Introns(2), Introns(3), IntervalConversions(1, "cuts"), IntervalConversions(2, "cuts"),
+         IntervalConversions(2, False), UtrFrameshift(-1), UtrFrameshift(1)]
